@@ -2,9 +2,9 @@ import LogicaModel.OrderLimit
 /-! Insertion sort is a sorted permutation (helper lemmas for `Props/C18.lean`). -/
 namespace Logica.OrderLimit
 
-variable {le : Row → Row → Bool}
+variable {α : Type} {le : α → α → Bool}
 
-theorem insertRow_perm (a : Row) (l : List Row) : (insertRow le a l).Perm (a :: l) := by
+theorem insertRow_perm (a : α) (l : List α) : (insertRow le a l).Perm (a :: l) := by
   induction l with
   | nil => simp [insertRow]
   | cons b l ih =>
@@ -13,7 +13,7 @@ theorem insertRow_perm (a : Row) (l : List Row) : (insertRow le a l).Perm (a :: 
     · exact List.Perm.refl _
     · exact (List.Perm.cons b ih).trans (List.Perm.swap a b l)
 
-theorem sortRows_perm (l : List Row) : (sortRows le l).Perm l := by
+theorem sortRows_perm (l : List α) : (sortRows le l).Perm l := by
   induction l with
   | nil => simp [sortRows]
   | cons a l ih =>
@@ -22,7 +22,7 @@ theorem sortRows_perm (l : List Row) : (sortRows le l).Perm l := by
 
 theorem pairwise_insertRow
     (trans : ∀ a b c, le a b → le b c → le a c) (total : ∀ a b, le a b || le b a)
-    (a : Row) (l : List Row) (h : l.Pairwise (fun x y => le x y)) :
+    (a : α) (l : List α) (h : l.Pairwise (fun x y => le x y)) :
     (insertRow le a l).Pairwise (fun x y => le x y) := by
   induction l with
   | nil => simp [insertRow]
@@ -52,7 +52,7 @@ theorem pairwise_insertRow
 
 theorem pairwise_sortRows
     (trans : ∀ a b c, le a b → le b c → le a c) (total : ∀ a b, le a b || le b a)
-    (l : List Row) : (sortRows le l).Pairwise (fun x y => le x y) := by
+    (l : List α) : (sortRows le l).Pairwise (fun x y => le x y) := by
   induction l with
   | nil => simp [sortRows]
   | cons a l ih => exact pairwise_insertRow trans total a _ ih
